@@ -3,12 +3,55 @@ T = "RsslVerif.Thm.C06."
 
 
 def nontrivial(req, obs):
+    if req.startswith("C06.compile"):
+        # at least one returned pipeline in which two declarations are bound
+        return any(p.count(",i") + p.count(",n") >= 2 for p in obs.split(" ## "))
     # at least two bound declarations
     return obs.count(",i") + obs.count(",n") >= 2
 
 
+def shrink_compile(f):
+    """C06.compile: drop one declaration (renumbering the uses), one pipeline, or the spelling flags of one declaration"""
+    pipes = [] if f[3] == "-" else [p.split(":") for p in f[3].split(";")]
+    decls = f[4].split(";") if f[4] else []
+
+    def emit(pipes, decls):
+        return "\t".join(f[:3] + [";".join(":".join(p) for p in pipes) or "-", ";".join(decls)])
+    for i in range(len(decls)):
+        if i + 1 < len(decls) and ".j" in "." + decls[i + 1].split("~")[1]:
+            continue  # the next one is written as a further declarator of this one
+        np = []
+        for p in pipes:
+            uses = [int(u) for u in p[3].split(".") if u]
+            np.append(p[:3] + [".".join(str(u - (1 if u > i else 0)) for u in uses if u != i)])
+        yield emit(np, decls[:i] + decls[i + 1:])
+    named = f[2][5:] if f[2].startswith("name=") else None
+    for i in range(len(pipes)):
+        if pipes[i][0] != named and len(pipes) > 1:
+            # later pipelines may be built from the entry points of pipeline i: renumber or drop the reference
+            rest = []
+            for p in pipes[:i] + pipes[i + 1:]:
+                kind, _, ref = p[2].partition("=")
+                if ref:
+                    ref = int(ref)
+                    kind = kind if ref == i else "%s=%d" % (kind, ref - (1 if ref > i else 0))
+                rest.append([p[0], p[1], kind, p[3]])
+            yield emit(rest, decls)
+    for i in range(len(pipes)):
+        if pipes[i][3]:
+            yield emit(pipes[:i] + [pipes[i][:3] + [""]] + pipes[i + 1:], decls)
+    for i, d in enumerate(decls):
+        head, flags = d.split("~")
+        keep = ".".join(x for x in flags.split(".") if x in ("s", "z", "j"))
+        if keep != flags:
+            yield emit(pipes, decls[:i] + [head + "~" + keep] + decls[i + 1:])
+
+
 def shrink(req):
     f = req.split("\t")
+    if f[0] == "C06.compile":
+        yield from shrink_compile(f)
+        return
     decls = f[3].split(";")
     # drop one user declaration at a time (keep the fixed first/last root definitions)
     for i in range(1, len(decls) - 1):
@@ -17,33 +60,63 @@ def shrink(req):
 
 SPEC = {
     "id": "C06",
-    "gens": ["SlotTables"],
+    "gens": ["SlotTables", "SlotCompile"],
     "lean_modules": ["RsslVerif.Thm.C06"],
     "theorems": [T + n for n in [
         "slice_cost_table", "alloc_shape_as_modelled", "params_of_targets_ok", "params_of_targets", "index_ranges_tile",
-        "inline_offsets_tile", "binding_complete", "inline_buffers_correct", "assign_ok_of_root_kinds"]],
+        "inline_offsets_tile", "binding_complete", "inline_buffers_correct", "assign_ok_of_root_kinds",
+        "compile_shape_as_modelled", "per_pipeline_default_group", "fresh_module_unbound", "per_pipeline_tiling",
+        "by_name_agrees_with_whole_file", "metadata_is_the_allocation"]],
     "harness": "c06",
     "level_text": "Proof: the allocator model (a fold with two counters) is proved, for every declaration sequence, default group "
                   "and parameter set compile() can build, to hand out per-group index ranges that tile [0,total) in declaration "
                   "order with the required lengths, 8-byte inline offsets that tile the inline block, one sorted inline block "
-                  "per group placed after all index slots, and bindings for exactly the bindable declarations. The tables are "
-                  "re-extracted from the source each run and the model is compared with the real assign_api_bindings on "
-                  "generated declaration sequences, with the property's own overlap/gap/order oracle run on the real result.",
+                  "per group placed after all index slots, and bindings for exactly the bindable declarations. The driver model "
+                  "(compile / build_pipeline / select_pipeline / the guard of assign_api_bindings / the metadata construction of "
+                  "both exporters) is proved, for every list of pipelines, mode and target, to return for the k-th requested "
+                  "pipeline exactly the allocator run with that pipeline's own default group (0 in no-pipeline mode), "
+                  "independent of the other pipelines, and metadata that lists per group exactly that allocation (the Metal "
+                  "per-group sort is the identity because the ranges tile). Tables and 46 statement-level source facts are "
+                  "re-extracted from the source each run; the allocator model is compared with the real assign_api_bindings on "
+                  "generated declaration sequences and the driver model with the real rssl::compile on generated shader files "
+                  "(4 target configurations x whole file / every pipeline by name / unknown name / no-pipeline mode), with the "
+                  "property's own overlap/gap/order/default-group oracle run on the real slots and on the returned metadata.",
     "nontrivial": nontrivial,
     "shrink": shrink,
-    "rule": "requests = (parameter set, default group, declaration sequence) run through the real front end and "
+    "rule": "C06.assign requests = (parameter set, default group, declaration sequence) run through the real front end and "
             "Module::assign_api_bindings; exhaustive single declarations over every bindable kind x length x group x "
             "static-sampler, exhaustive pairs (thorough: full class alphabet) and random sequences of length 3-12, each on "
-            "the 4 parameter sets x default group 0..2; non-trivial = at least two declarations received a binding",
+            "the 4 parameter sets x default group 0..2. C06.compile requests = (target configuration, mode, pipelines with "
+            "their default groups 0..5 / absent, kinds and shared entry points, 0-9 named declarations in source order with "
+            "the spelling of their group: attribute / register space / vk::binding / attribute overriding a register space, "
+            "explicit register indices, bindless, namespaces, several declarators per declaration, static storage, unsized "
+            "and two-dimensional arrays) rendered to a shader file and compiled by rssl::compile; quick 300 programs "
+            "(every other one with at least two pipelines), thorough 6000. non-trivial = at least two declarations "
+            "received a binding (in at least one returned pipeline)",
     "trusted_base": [
         "Lean 4.33 kernel; axioms propext / Classical.choice / Quot.sound only (audited by #print axioms)",
         "tools/translate.py (SlotTables: ObjectType variants, slice_cost arm, is_buffer_address, get_register_type, "
-        "AssignBindingsParams::default, compile()'s binding_params) — re-run on /repo's working tree every time",
-        "hand-written Model/Slots.lean mirrors process_definition; tied to the code by the correspondence run only",
-        "Spec/Slots.lean: our reading of the property (which kinds are doubled on Metal; 8 bytes per buffer address)",
+        "AssignBindingsParams::default, compile()'s binding_params, 14 statement facts about process_definition) and "
+        "tools/gens/c06.py (SlotCompile: 32 statement facts about compile / build_pipeline / select_pipeline / the typer's "
+        "explicit group and DefaultBindGroup / both exporters' analyse_bindings, register_binding, inline block, Metal "
+        "group limit and sort) -- re-run on /repo's working tree every time; the facts are regular expressions over "
+        "the comment-stripped, whitespace-normalised source, reviewed by hand",
+        "hand-written Model/Slots.lean mirrors process_definition and Model/SlotsCompile.lean mirrors compile / "
+        "build_pipeline / select_pipeline / register_binding / generate_inline_constant_buffers / the Metal sort; "
+        "tied to the code by the source facts and the two correspondence streams only",
+        "Spec/Slots.lean: our reading of the property (which kinds are doubled on Metal; 8 bytes per buffer address); "
+        "Lemmas/SlotsCompile.requestedDefaults: which pipelines a call returns and that no-pipeline mode uses group 0; "
+        "Lemmas/SlotsMeta.entriesOf: what the metadata of a group must list",
+        "harness/src/c06/e2e.rs renders the request to source text; the request -> model-declaration mapping of "
+        "Driver/C06.lean (flags s, z, m make a global one the allocator leaves alone) is checked only by the run",
     ],
     "assumptions": [
         "u32 arithmetic is modelled by Nat: statements apply while every group's running total stays below 2^32",
         "array lengths are the ones the type checker records (evaluated constant expressions)",
+        "the module handed to compile()'s loop is the one type_check returned: nothing selected, nothing assigned "
+        "(hypotheses of per_pipeline_default_group; fresh_module_unbound shows the model's fresh module meets them)",
+        "reported names are the source names (generated programs avoid names the exporters rename; renaming is C15)",
+        "unsized arrays (excluded by the property), two-dimensional arrays and struct-typed globals holding resources "
+        "(outside the property's quantifier) receive no slot: modelled as such, not judged by the oracle",
     ],
 }
